@@ -124,6 +124,7 @@ type Exec struct {
 	n2       int
 	ghostBoxes []*Term
 	collect  *[]clauseInst
+	collectFacts *[]*Term // type facts of values read by the spec being evaluated
 	quiet    int
 	siteN    int
 	spawned  []string
@@ -132,6 +133,8 @@ type Exec struct {
 	axioms   []*Term // global axioms of the memory model (independent of program point)
 	slAtSorts map[string]string
 	boxedLocs map[string]*Loc
+	writeLog  []writeRec
+	freshRefs map[string]int
 }
 
 type caseDef struct {
@@ -198,8 +201,78 @@ func (ex *Exec) set(st *State, comp string, t *Term) {
 	ex.compSort[comp] = t.Sort
 	if ex.ghost == 0 {
 		ex.written[comp] = true
+		// remember which object the write goes to (used to refine frames: a
+		// component written only at objects allocated by the code itself keeps
+		// its value at every object that existed before)
+		prev := st.heap[comp]
+		ex.writeLog = append(ex.writeLog, writeRec{comp: comp, key: writtenKey(prev, t)})
 	}
 	st.heap[comp] = ex.ctx.Abbrev("H."+comp, t)
+}
+
+type writeRec struct {
+	comp      string
+	key       *Term // object written, nil if unknown
+	freshOnly bool  // havoc by a callee whose frame says "fresh objects only"
+}
+
+// writtenKey recognises store(prev, k, v) and ite(c, store(prev, k, v), prev).
+func writtenKey(prev, t *Term) *Term {
+	if prev == nil || t == nil {
+		return nil
+	}
+	if t.Op == "ite" && len(t.Args) == 3 {
+		if t.Args[2] == prev {
+			return writtenKey(prev, t.Args[1])
+		}
+		if t.Args[1] == prev {
+			return writtenKey(prev, t.Args[2])
+		}
+		return nil
+	}
+	if t.Op == "store" && len(t.Args) == 3 && (t.Args[0] == prev || sameTerm(t.Args[0], prev)) {
+		return t.Args[1]
+	}
+	return nil
+}
+
+// freshOnlyComps analyses the writes logged since index from: a component is
+// "fresh only" if every write to it went to an object allocated after counter n0.
+func (ex *Exec) freshOnlyComps(from int, n0 int) map[string]bool {
+	ok := map[string]bool{}
+	bad := map[string]bool{}
+	for _, w := range ex.writeLog[from:] {
+		if w.comp == "Alloc" || strings.HasPrefix(w.comp, "loc.") {
+			continue
+		}
+		good := w.freshOnly
+		if !good && w.key != nil && len(w.key.Args) == 0 {
+			if n, isFresh := ex.freshRefs[w.key.Op]; isFresh && n > n0 {
+				good = true
+			}
+		}
+		if good {
+			ok[w.comp] = true
+		} else {
+			bad[w.comp] = true
+		}
+	}
+	for c := range bad {
+		delete(ok, c)
+	}
+	return ok
+}
+
+// preserveAllocated states that component comp (an array indexed by Ref) has
+// the same value in nw as in old at every object allocated in alloc.
+func (ex *Exec) preserveAllocated(st *State, alloc, old, nw *Term) {
+	k, _ := arrayParts(nw.Sort)
+	if k != SRef {
+		return
+	}
+	r := Bound{Name: ex.boundName("r"), Sort: SRef}
+	rv := V(r.Name, SRef)
+	ex.assume(st, Forall([]Bound{r}, Implies(Select(alloc, rv), Eq(Select(nw, rv), Select(old, rv)))))
 }
 
 func (ex *Exec) assume(st *State, t *Term) {
@@ -293,6 +366,7 @@ type loopInfo struct {
 	mod    map[string]bool
 	modAll bool
 	modDone bool
+	freshOnly map[string]bool // components the body writes only at objects it allocates itself
 }
 
 func (ex *Exec) newFrame(fn *ssa.Function, params, free []Val, outer *Frame) *Frame {
